@@ -523,6 +523,118 @@ def extract_unpretty(defs, consts):
 
 
 
+def extract_html5(defs, consts):
+    """C19: namespace constants and element-name tables of output/html5elements.rs, the shape of its
+    predicates, the literals of Html5Serializer::render_output / serialize_pretty / serialize_node
+    (output/html5_serializer.rs) and the doctype written by serialize.rs."""
+    src = strip_comments(read("src/output/html5elements.rs"))
+    for rust, lean in (("XHTML_NS", "xhtmlNs"), ("MATHML_NS", "mathmlNs"), ("SVG_NS", "svgNs")):
+        m = re.search(r"\bconst\s+" + rust + r"\s*:\s*&str\s*=\s*" + STRLIT + r"\s*;", src)
+        if not m:
+            raise ExtractError(f"{lean}: `const {rust}: &str = \"…\";` not found in src/output/html5elements.rs")
+        defs.append(f"/-- `{rust}` (src/output/html5elements.rs). -/\ndef {lean} : List Char := {lean_str(unescape(m.group(1)))}\n")
+        consts[lean] = unescape(m.group(1))
+    body = fn_body(impl_block(src, "Html5Elements", "new", "html5 tables"), "new", "html5 tables")
+    # the three namespaces are registered from the three constants
+    regs = re.findall(r"let\s+(\w+)\s*=\s*xot\.add_namespace\(\s*(\w+)\s*\)\s*;", body)
+    if regs != [("xhtml_namespace_id", "XHTML_NS"), ("mathml_namespace_id", "MATHML_NS"), ("svg_namespace_id", "SVG_NS")]:
+        raise ExtractError(f"html5 tables: namespace registrations of Html5Elements::new are {regs}")
+    tables = (("html5_names", "html5Names"), ("void_names", "voidNames"),
+              ("phrasing_content_names", "phrasingContentNames"), ("formatted_names", "formattedNames"),
+              ("no_escape_names", "noEscapeNames"))
+    for rust, lean in tables:
+        m = re.search(r"let\s+" + rust + r"\s*=\s*\[(.*?)\]\s*;", body, flags=re.S)
+        if not m:
+            raise ExtractError(f"{lean}: `let {rust} = [ … ];` not found in Html5Elements::new")
+        names = [unescape(x) for x in re.findall(STRLIT, m.group(1))]
+        if not names or re.sub(STRLIT, "", m.group(1)).replace(",", "").strip() != "":
+            raise ExtractError(f"{lean}: the array `{rust}` is not a list of string literals")
+        if not re.search(r"let\s+" + rust + r"\s*=\s*HtmlNames::new\(\s*xot\s*,\s*xhtml_namespace_id\s*,\s*&" + rust + r"\s*\)\s*;", body):
+            raise ExtractError(f"{lean}: `let {rust} = HtmlNames::new(xot, xhtml_namespace_id, &{rust});` not found")
+        defs.append(f"/-- `{rust}` of `Html5Elements::new`. -/\ndef {lean} : List (List Char) :=\n  {lean_strs(names)}\n")
+        consts[lean] = names
+    # shapes of the predicates the model transcribes
+    def squeeze(x):
+        return re.sub(r"\s+", "", x)
+    hn = impl_block(src, "HtmlNames", "matches", "HtmlNames")
+    he = impl_block(src, "Html5Elements", "is_inline", "Html5Elements")
+    shapes = (
+        (hn, "new", "letmutids=HashSet::new();fornameinnames{ids.insert(xot.add_name_ns(name,xot.no_namespace()));"
+                    "ids.insert(xot.add_name_ns(&name.to_ascii_uppercase(),xot.no_namespace()));"
+                    "ids.insert(xot.add_name_ns(name,xhtml_namespace_id));"
+                    "ids.insert(xot.add_name_ns(&name.to_ascii_uppercase(),xhtml_namespace_id));}"
+                    "Self{xhtml_namespace_id,ids,names:names.iter().map(|name|name.to_string()).collect(),}"),
+        (hn, "is_html_element", "letnamespace=xot.namespace_for_name(name_id);namespace==self.xhtml_namespace_id||namespace==xot.no_namespace()"),
+        (hn, "matches", "ifself.ids.contains(&name_id){returntrue;}if!self.is_html_element(xot,name_id){returnfalse;}"
+                        "letname=xot.local_name_str(name_id);letname=name.to_ascii_lowercase();self.names.contains(&name)"),
+        (he, "is_inline", "self.is_html_element(xot,name_id)&&((self.phrasing_content_names.matches(xot,name_id))||!self.html5_names.matches(xot,name_id))"),
+        (he, "is_html_element", "letnamespace=xot.namespace_for_name(name_id);self.is_html_namespace(xot,namespace)"),
+        (he, "must_be_serialized_unprefixed", "namespace==self.xhtml_namespace_id||namespace==self.mathml_namespace_id||namespace==self.svg_namespace_id"),
+        (he, "is_html_namespace", "namespace_id==self.xhtml_namespace_id||namespace_id==xot.no_namespace()"),
+    )
+    for block, fn, want in shapes:
+        got = squeeze(fn_body(block, fn, "html5 predicates"))
+        if got != want:
+            raise ExtractError(f"html5 predicates: body of `{fn}` in src/output/html5elements.rs is `{got}`, expected `{want}` (the model transcribes it)")
+    # render_output literals
+    ssrc = strip_comments(read("src/output/html5_serializer.rs"))
+    body = fn_body(ssrc, "render_output", "html render literals")
+    lits = []
+    for m in re.finditer(r'format!\(\s*"((?:\\.|[^"\\])*)"|"((?:\\.|[^"\\])*)"\s*\.to_string\(\)', body):
+        if m.group(1) is not None:
+            lits.append(("fmt", unescape(m.group(1))))
+        else:
+            lits.append(("lit", unescape(m.group(2))))
+    names = [("fmtHtmlStartTagOpenNs", "fmt", 2), ("fmtHtmlStartTagOpen", "fmt", 1), ("litHtmlTagClose", "lit", 0),
+             ("litHtmlVoidEndTag", "lit", 0), ("fmtHtmlEndTag", "fmt", 1), ("litHtmlNoPrefix", "lit", 0),
+             ("fmtHtmlXmlnsDefault", "fmt", 1), ("fmtHtmlXmlnsPrefix", "fmt", 2), ("fmtHtmlBooleanAttr", "fmt", 1),
+             ("fmtHtmlAttribute", "fmt", 2), ("fmtHtmlComment", "fmt", 1), ("fmtHtmlPiData", "fmt", 2),
+             ("fmtHtmlPi", "fmt", 1)]
+    if len(lits) != len(names):
+        raise ExtractError(f"html render literals: expected {len(names)} format!/to_string literals in Html5Serializer::render_output, found {len(lits)}: {lits}")
+    for (name, kind, holes), (k, text) in zip(names, lits):
+        if k != kind or (kind == "fmt" and text.count("{}") != holes) or ("{" in text.replace("{}", "")):
+            raise ExtractError(f"html render literals: {name}: unexpected literal {text!r}")
+        if kind == "fmt":
+            defs.append(f"def {name} : List (List Char) := {lean_strs(text.split('{}'))}\n")
+        else:
+            defs.append(f"def {name} : List Char := {lean_str(text)}\n")
+        consts[name] = text
+    m = re.search(r"data\.contains\(\s*" + CHAR + r"\s*\)", body)
+    if not m or len(unescape(m.group(1))) != 1:
+        raise ExtractError("htmlPiForbidden: `data.contains('c')` not found in Html5Serializer::render_output")
+    defs.append(f"/-- The character a processing instruction's data must not contain (`data.contains`). -/\ndef htmlPiForbidden : Char := {lean_char(unescape(m.group(1)))}\n")
+    consts["htmlPiForbidden"] = unescape(m.group(1))
+    body = fn_body(ssrc, "serialize_pretty", "html indentation width")
+    m = re.search(r'"((?:\\.|[^"\\])*)"\s*\.repeat\(\s*indentation\s*\*\s*(\d+)\s*\)', body)
+    nl = re.findall(r'write_all\(\s*b"((?:\\.|[^"\\])*)"\s*\)', body)
+    if not m or len(nl) != 1:
+        raise ExtractError("Html5Serializer::serialize_pretty: expected `\" \".repeat(indentation * N)` and one `write_all(b\"…\")`")
+    defs.append(f"def htmlIndentUnit : List Char := {lean_str(unescape(m.group(1)))}\n")
+    defs.append(f"def htmlIndentWidth : Nat := {int(m.group(2))}\n")
+    defs.append(f"def htmlNewline : List Char := {lean_str(unescape(nl[0]))}\n")
+    consts["htmlIndent"] = [unescape(m.group(1)), int(m.group(2)), unescape(nl[0])]
+    body = fn_body(ssrc, "serialize_node", "html token space")
+    sp = re.findall(r'write_all\(\s*b"((?:\\.|[^"\\])*)"\s*\)', body)
+    if len(sp) != 1:
+        raise ExtractError("Html5Serializer::serialize_node: expected one `write_all(b\"…\")` literal (the token space)")
+    defs.append(f"def htmlTokenSpace : List Char := {lean_str(unescape(sp[0]))}\n")
+    consts["htmlTokenSpace"] = unescape(sp[0])
+    # the doctype: first thing `Html5::serialize_write_with_normalizer` writes
+    xsrc = strip_comments(read("src/serialize.rs"))
+    mi = re.search(r"\bimpl\s*<'a>\s*Html5\s*<'a>\s*\{", xsrc)
+    if not mi:
+        raise ExtractError("htmlDoctype: `impl<'a> Html5<'a> {` not found in src/serialize.rs")
+    body = fn_body(xsrc[mi.start():], "serialize_write_with_normalizer", "htmlDoctype")
+    m = re.match(r'\s*w\.write_all\(\s*b"((?:\\.|[^"\\])*)"\s*\)\.unwrap\(\)\s*;', body)
+    if not m:
+        raise ExtractError("htmlDoctype: `Html5::serialize_write_with_normalizer` does not start with `w.write_all(b\"…\").unwrap();`")
+    if len(re.findall(r'write_all\(', body)) != 1:
+        raise ExtractError("htmlDoctype: `Html5::serialize_write_with_normalizer` writes more than the doctype itself")
+    defs.append(f"/-- The bytes `Html5::serialize_write_with_normalizer` writes first (src/serialize.rs). -/\ndef htmlDoctype : List Char := {lean_str(unescape(m.group(1)))}\n")
+    consts["htmlDoctype"] = unescape(m.group(1))
+
+
 # ---------------------------------------------------------------------------------------------
 # C12: `struct Xot` — field list, types, and the ownership argument for `#[derive(Clone)]`
 
